@@ -147,7 +147,7 @@ for _w in range(12):
          unwind=8, defines=["MS_WHICH=%d" % _w], defines_thorough=["MS_PLEN=6", "MS_OLEN=4"], unwind_thorough=10, functions=[_fn],
          expect_tags=["C16.match.function-equals-reference-predicate"], timeout=300, solver="cadical",
          assumes=["libc: CBMC built-in strcmp/strncmp/strlen, assumed models of strstr/strcasestr/strcasecmp/strncasecmp (C locale)"])
-unit("match.parse", ["C16", "C06"], "units/u_fetch_parse.c", entry="h_match_parse", kind="bounded", tier="thorough",
+unit("match.parse", ["C16", "C06"], "units/u_fetch_parse.c", entry="h_match_parse", kind="bounded", tier="thorough", best_effort=True,
      bound="rule objects of <= 3 members over 10 adversarial names x 6 JSON types, containsAllOf lists of <= 2 elements",
      unwind=20, functions=["create_fetch", "alloc_fetch", "add_matchers", "create_matcher", "fill_path_elements", "create_path_matcher", "free_matcher", "free_path_elements", "free_fetch"],
      expect_tags=["C16.parse.every-matcher-slot-filled", "C16.parse.unknown-name-or-wrong-operand-type-is-refused"], timeout=600, solver="cadical",
@@ -176,7 +176,7 @@ unit("ws.send", ["C12", "C10", "C06"], "units/ws.c", entry="h_ws_send", function
 WS_NO_DEFLATE = ["--remove-function-body", "private_decompress", "--remove-function-body", "reassemble", "--remove-function-body", "websocket_compress",
                  "--generate-function-body", "private_decompress|reassemble|websocket_compress", "--generate-function-body-options", "assert-false-assume-false"]
 unit("ext.offer", ["C19", "C06"], "units/ws.c", entry="h_ext_offer", functions=["check_websocket_extensions", "fill_requested_extension", "write_to_response"], kind="bounded",
-     bound="Sec-WebSocket-Extensions values of <= 48 bytes, every content", expect_tags=["C19.ext.response-fits-its-buffer"], timeout=900, tier="thorough",
+     bound="Sec-WebSocket-Extensions values of <= 48 bytes, every content", expect_tags=["C19.ext.response-fits-its-buffer"], timeout=900, tier="thorough", best_effort=True,
      **dict(WS_COMMON, unwind=50, goto_instrument_args=["--remove-function-body", "alloc_compression", "--value-set-fi-fp-removal"], flags=[]), allow_no_body=["alloc_compression"],
      assumes=["alloc_compression (zlib deflateInit/inflateInit) cut off", "isspace: C-locale model", "realloc: cbmc model (may not fail)"])
 for _d in (1, 0):
@@ -240,7 +240,7 @@ unit("bs.writev", ["C10"], "units/bs.c", entry="h_bs_writev",
      replay={"c": "replay/bs_replay.c", "extract": "bs_extract"}, **BS_WRITE)
 unit("bs.flush", ["C10"], "units/bs.c", entry="h_bs_flush", functions=["write_function", "send_buffer", "error_function"],
      expect_tags=["C10.flush.nothing-lost-nothing-duplicated", "C10.flush.bytes-in-order"], timeout=700, **BS_WRITE)
-unit("bs.start", ["C09", "C13", "C05"], "units/bs.c", entry="h_bs_start", tier="thorough", functions=["buffered_socket_read_until", "buffered_socket_read_exactly", "go_reading", "buffered_socket_init", "error_function"],
+unit("bs.start", ["C09", "C13", "C05"], "units/bs.c", entry="h_bs_start", tier="thorough", best_effort=True, functions=["buffered_socket_read_until", "buffered_socket_read_exactly", "go_reading", "buffered_socket_init", "error_function"],
      expect_tags=["C13.start.read-error-and-over-long-line-are-reported-through-the-error-callback", "C05.start.no-callback-after-the-connection-was-closed"], timeout=900,
      **dict(BS_COMMON, unwind=14, goto_instrument_args=cut(["write_function", "send_buffer", "read_function"]) + ["--value-set-fi-fp-removal"]))
 unit("bs.read_exactly", ["C09"], "units/bs.c", entry="h_bs_read_exactly", functions=["get_read_ptr", "fill_buffer", "reorganize_read_buffer"],
@@ -460,7 +460,7 @@ unit("timer.lifecycle", ["C07", "C14", "C06"], "units/u_timerlinux.c", entry="h_
      goto_instrument_args=["--value-set-fi-fp-removal"],
      assumes=["timerfd_create / timerfd_settime / close: assumed OS contracts (any descriptor or -1; 0 or -1)", "event loop add/remove: recording stubs that require the loop's this_ptr"])
 
-unit("timer.spec", ["C14"], "units/u_timerlinux.c", entry="h_timer_lifecycle", functions=["convert_timeoutns_to_itimerspec"], unwind=4, solver="cadical", tier="thorough",
+unit("timer.spec", ["C14"], "units/u_timerlinux.c", entry="h_timer_lifecycle", functions=["convert_timeoutns_to_itimerspec"], unwind=4, solver="cadical", tier="thorough", best_effort=True,
      defines=["TIMER_SPEC=1"], expect_tags=["C14.timer.deadline-is-exactly-the-requested-nanoseconds"], timeout=1800, goto_instrument_args=["--value-set-fi-fp-removal"],
      assumes=["64-bit division by 10^9: may not finish (then undecided)"])
 
